@@ -635,11 +635,26 @@ class Repo:
         val: Any = NotConst
         if q == "django.VERSION":
             val = _read_django_version()
+        elif q in _STDLIB_CONSTANTS:
+            val = _STDLIB_CONSTANTS[q]
         self._ext_cache[q] = val
         return val
 
     def digests(self) -> Dict[str, str]:
         return {m.rel: file_digest(m.path) for m in self.modules.values()}
+
+
+# documented constants of the standard library (their values are part of the language documentation)
+_STDLIB_CONSTANTS = {
+    "string.ascii_lowercase": "abcdefghijklmnopqrstuvwxyz",
+    "string.ascii_uppercase": "ABCDEFGHIJKLMNOPQRSTUVWXYZ",
+    "string.ascii_letters": "abcdefghijklmnopqrstuvwxyzABCDEFGHIJKLMNOPQRSTUVWXYZ",
+    "string.digits": "0123456789",
+    "string.hexdigits": "0123456789abcdefABCDEF",
+    "string.octdigits": "01234567",
+    "string.punctuation": "!\"#$%&'()*+,-./:;<=>?@[\\]^_`{|}~",
+    "string.whitespace": " \t\n\r\x0b\x0c",
+}
 
 
 def _read_django_version() -> Any:
